@@ -21,12 +21,12 @@ CHECKS = {
                      "from the AMQP specification). Decoder half: every spec-valid variant produced by Enc(v, mode) x descriptor form x trailing-null form must "
                      "decode to the same value. The oracle itself is model-checked (Dec o Enc = id for all modes) in the same run.",
                 note="trusted: reference Dec/Enc in AmqpCodec.tla (cross-checked against each other by TLC), harness transcription"),
-    "C04": dict(technique="TLA+-generated untrusted inputs (exhaustive short strings, all single-byte corruptions and truncations of seed encodings, nesting / huge-length families) run through 13 decoder entry points under panic / abort / allocation / CPU monitors; validity and meaning decided by the TLA+ reference decoder in TLC",
+    "C04": dict(technique="TLA+-generated untrusted inputs (exhaustive short strings, all single-byte corruptions and truncations of seed encodings, nesting / huge-length families) run through 14 decoder entry points (the last one puts the input behind AMQP and SASL frame headers with data offsets 0, 1, 3, 64, 255) under panic / abort / allocation / CPU monitors; validity and meaning decided by the TLA+ reference decoder in TLC",
                 design="4/C04",
                 text="TLC enumerates the inputs of MC_Decode.tla; the harness decodes each through every public entry point in a restartable child with a 2 MiB "
                      "stack, a counting allocator and thread-CPU timing; DecodeTrace.tla (TLC) recomputes the reference verdict from the logged bytes and evaluates "
                      "C04_Total / C04_Alloc / C04_Cpu / C04_Idempotent / C04_AcceptsValid per record. Exhaustive for the generated space.",
-                note="trusted: the monitors (catch_unwind + child exit status, counting allocator, CLOCK_THREAD_CPUTIME); bounds 64 B/B + 32 MiB and 2 s CPU are the weaker reading of 'out of proportion'"),
+                note="trusted: the monitors (catch_unwind + child exit status, counting allocator, CLOCK_THREAD_CPUTIME); bounds 2 KiB per input byte + 512 KiB and 2 s CPU are the weaker reading of 'out of proportion'"),
     "C06": dict(technique="TLC model check of the frame-splitting rule and of the stream reader over all partitions (Framing.tla, StreamDec.tla); TLC-generated frames / partitions replayed through the real Transport; written and decoded frames validated in TLC (FramingTrace.tla)",
                 design="4/C06",
                 text="MC: the splitting rule satisfies size <= max, contiguous slices, more flags and progress for every payload length 0..3*max+2 and every "
